@@ -6,8 +6,11 @@ import DoviModel.Proofs.ParseWf
 * `readRpuData_parts`: the mapping / DM payload of a `read_rpu_data` result come from `parseMapping` /
   `parseDmData` on the result's own header; profile and `el_type` are derived fields.
 * `shape_notMixed`: a mapping of the parser's shape never has a component with both a polynomial and an MMR box.
-* left inverses of the field-by-field conversions (`CCurve.toCurve`, `CMapping.toMapping`, `CLevels.perLevel`):
-  the C structures determine the Rust structures, up to the interleaving of DM blocks of different levels.
+* left inverses of the field-by-field conversions (`toPoly`, `toMmr`, `toNlq`, `toCurve`, `toMapping`, `perLevel`,
+  `cDm_mainVals`): the C mapping / DM structures determine the Rust structures, up to the interleaving of DM blocks
+  of different levels.
+* the header: `cHeaderFrom_eq` (the C header determines every Rust header field but the three it lacks),
+  `denomLength_of_wf` (`coefficient_log2_denom_length` of a parsed header is a function of carried fields).
 -/
 namespace Dovi.CViewP
 open Dovi Dovi.PwDm
@@ -118,6 +121,44 @@ theorem parseRpu_mapping_shape {data : Bytes} {r : Rpu} (hp : parseRpu data = .o
     exact hvm.1.1.2
   exact parseMapping_shape _ _ _ m hs hv
 
+/-- the header of a `read_rpu_data` result is the parser's header (`Header.Wf`), whatever the mapping holds -/
+theorem readRpuData_header_wf {bits rest : Bits} {r : Rpu} (hp : readRpuData bits = .ok (r, rest)) :
+    r.header.Wf = true := by
+  unfold readRpuData at hp
+  obtain ⟨pfx, s1, e1, q1⟩ := P.bind_eq_ok.mp hp
+  clear hp
+  obtain ⟨u1, s1', e1', q2⟩ := P.bind_eq_ok.mp q1
+  clear q1
+  obtain ⟨h0, s2, e2, q3⟩ := P.bind_eq_ok.mp q2
+  clear q2
+  obtain ⟨u2, s2', e2', q4⟩ := P.bind_eq_ok.mp q3
+  clear q3
+  obtain ⟨mp, s3, e3, q5⟩ := P.bind_eq_ok.mp q4
+  clear q4
+  obtain ⟨dm, s4, e4, q6⟩ := P.bind_eq_ok.mp q5
+  clear q5
+  obtain ⟨u3, s5x, e5, q7⟩ := P.bind_eq_ok.mp q6
+  clear q6
+  obtain ⟨avail, s5, e5', q8⟩ := P.bind_eq_ok.mp q7
+  clear q7
+  obtain ⟨rem, s6, e6, q9⟩ := P.bind_eq_ok.mp q8
+  clear q8
+  obtain ⟨crc, s7, e7, q10⟩ := P.bind_eq_ok.mp q9
+  clear q9
+  obtain ⟨last, s8, e8, q11⟩ := P.bind_eq_ok.mp q10
+  clear q10
+  obtain ⟨u4, s8', e8', q12⟩ := P.bind_eq_ok.mp q11
+  clear q11
+  obtain ⟨hr, _⟩ := pure_inv q12
+  clear q12
+  subst hr
+  exact (ParseWf.Wf_prefix h0 pfx).trans (ParseWf.parseHeader_wf e2)
+
+/-- every header `DoviRpu::parse` returns is `Header.Wf` and passed `validate` -/
+theorem parseRpu_header_wf {data : Bytes} {r : Rpu} (hp : parseRpu data = .ok r) : r.header.Wf = true := by
+  obtain ⟨_, bits, rest, r0, hrd, rfl⟩ := parseRpu_parts hp
+  exact readRpuData_header_wf (r := r0) hrd
+
 /-! ## no component of a shaped mapping mixes polynomial and MMR boxes -/
 
 theorem curveWf_one_kind (q : Int → Bool) (h : Header) (c : Curve) (hw : CurveWf q h c = true) :
@@ -165,14 +206,41 @@ def methodOfNat : Nat → MappingMethod
 theorem methodOfNat_toNat (m : MappingMethod) : methodOfNat m.toNat = m := by
   cases m <;> rfl
 
+/-- the Rust polynomial pieces a C `PolynomialCurve` stands for (a flag byte is a `bool`) -/
+def toPoly (p : CPoly) : PolyCurve :=
+  { poly_order_minus1 := p.poly_order_minus1, linear_interp_flag := p.linear_interp_flag.map (· != 0),
+    poly_coef_int := p.poly_coef_int, poly_coef := p.poly_coef }
+
+theorem toPoly_cPoly (p : PolyCurve) : toPoly (cPoly p) = p := by
+  cases p
+  simp only [toPoly, cPoly, List.map_map, PolyCurve.mk.injEq, true_and, and_true]
+  rw [List.map_congr_left (g := id)]
+  · simp
+  · intro b _
+    cases b <;> rfl
+
+def toMmr (m : CMmr) : MmrCurve :=
+  { mmr_order_minus1 := m.mmr_order_minus1, mmr_constant_int := m.mmr_constant_int, mmr_constant := m.mmr_constant,
+    mmr_coef_int := m.mmr_coef_int, mmr_coef := m.mmr_coef }
+
+theorem toMmr_cMmr (m : MmrCurve) : toMmr (cMmr m) = m := rfl
+
+def toNlq (n : CNlq) : Nlq :=
+  { nlq_offset := n.nlq_offset, vdr_in_max_int := n.vdr_in_max_int, vdr_in_max := n.vdr_in_max,
+    linear_deadzone_slope_int := n.linear_deadzone_slope_int, linear_deadzone_slope := n.linear_deadzone_slope,
+    linear_deadzone_threshold_int := n.linear_deadzone_threshold_int,
+    linear_deadzone_threshold := n.linear_deadzone_threshold }
+
+theorem toNlq_cNlq (n : Nlq) : toNlq (cNlq n) = n := rfl
+
 /-- the Rust component a C `ReshapingCurve` stands for -/
 def toCurve (c : CCurve) : Curve :=
   { num_pivots_minus2 := c.num_pivots_minus2, pivots := c.pivots, mapping_idc := methodOfNat c.mapping_idc,
-    polynomial := c.polynomial, mmr := c.mmr }
+    polynomial := c.polynomial.map toPoly, mmr := c.mmr.map toMmr }
 
 theorem toCurve_cCurve (c : Curve) : toCurve (cCurve c) = c := by
-  cases c
-  simp [toCurve, cCurve, methodOfNat_toNat]
+  obtain ⟨a, b, i, p, m⟩ := c
+  cases p <;> cases m <;> simp [toCurve, cCurve, methodOfNat_toNat, toPoly_cPoly, toMmr_cMmr]
 
 /-- `-1` ↦ `None`, a non-negative value ↦ `Some` -/
 def unMarker (z : Int) : Option Nat := if z < 0 then none else some z.toNat
@@ -192,14 +260,74 @@ def toMapping (m : CMapping) : Mapping :=
     curves := m.curves.map toCurve,
     nlq_method_idc := unMarker m.nlq_method_idc, nlq_num_pivots_minus2 := unMarker m.nlq_num_pivots_minus2,
     nlq_pred_pivot_value := if m.nlq_pred_data_null then none else some m.nlq_pred_pivot_value,
-    nlq := m.nlq }
+    nlq := m.nlq.map toNlq }
 
 theorem toMapping_cMapping (m : Mapping) (hl : m.curves.length = 3) : toMapping (cMapping m) = m := by
   obtain ⟨a, b, c, d, e, curves, f, g, pv, n⟩ := m
   match curves, hl with
   | [x, y, z], _ =>
-    cases pv <;>
-      simp [toMapping, cMapping, Mapping.curve, toCurve_cCurve, unMarker_optMarker]
+    cases pv <;> cases n <;>
+      simp [toMapping, cMapping, Mapping.curve, toCurve_cCurve, unMarker_optMarker, toNlq_cNlq]
+
+/-! ## the header: which Rust fields the C struct carries -/
+
+/-- `coefficient_log2_denom_length` as the parser derives it from fields the C struct does carry
+(`rpu_data_header.rs`: `coefficient_log2_denom as u32` for coefficient data type 0, 32 for type 1, untouched
+without sequence info) -/
+def derivedDenomLength (h : Header) : Nat :=
+  if h.vdr_seq_info_present_flag then (if h.coefficient_data_type == 0 then h.coefficient_log2_denom % 2^32 else 32)
+  else 0
+
+/-- for a header of the parser's shape the derived field is that function of the carried fields -/
+theorem denomLength_of_wf (h : Header) (hw : h.Wf = true) :
+    h.coefficient_log2_denom_length = derivedDenomLength h := by
+  unfold derivedDenomLength
+  unfold Header.Wf at hw
+  cases hs : h.vdr_seq_info_present_flag with
+  | false =>
+    simp only [hs, Bool.false_eq_true, if_false, Header.seqDefaults, Bool.and_eq_true, beq_iff_eq] at hw
+    simp [hw.1.2.1.1.1.2]
+  | true =>
+    simp only [hs, if_true, Bool.and_eq_true, Bool.or_eq_true, beq_iff_eq] at hw
+    rcases hw.1.2.1 with ⟨h0, hl⟩ | ⟨⟨h1, _⟩, hl⟩
+    · simp [h0, hl]
+    · simp [h1, hl]
+
+/-- **what the C header determines of the Rust header**: two Rust headers with the same `RpuDataHeader::from`
+agree in every field except the three the C struct does not have -/
+theorem cHeaderFrom_eq (h h' : Header) (hc : cHeaderFrom h = cHeaderFrom h') :
+    h = { h' with coefficient_log2_denom_length := h.coefficient_log2_denom_length,
+                  ext_mapping_idc_0_4 := h.ext_mapping_idc_0_4, ext_mapping_idc_5_7 := h.ext_mapping_idc_5_7 } := by
+  cases h; cases h'
+  simp only [cHeaderFrom, CHeader.mk.injEq] at hc
+  simp only [Header.mk.injEq, true_and, and_true]
+  simp_all
+
+/-- … and for two headers of the parser's shape also in `coefficient_log2_denom_length`: only the two
+`ext_mapping_idc` fields stay undetermined -/
+theorem cHeaderFrom_eq_wf (h h' : Header) (hw : h.Wf = true) (hw' : h'.Wf = true)
+    (hc : cHeaderFrom h = cHeaderFrom h') :
+    h = { h' with ext_mapping_idc_0_4 := h.ext_mapping_idc_0_4, ext_mapping_idc_5_7 := h.ext_mapping_idc_5_7 } := by
+  have e := cHeaderFrom_eq h h' hc
+  have hl : h.coefficient_log2_denom_length = h'.coefficient_log2_denom_length := by
+    rw [denomLength_of_wf h hw, denomLength_of_wf h' hw']
+    rw [e]
+    rfl
+  rw [e]
+  cases h; cases h'
+  simp only at hl
+  simp only [Header.mk.injEq, true_and, and_true]
+  exact hl
+
+/-! ## the 32 payload fields of `vdr_dm_data` -/
+
+/-- the 32 named fields of the C `VdrDmData`, read in declaration order, are the model's `main` list -/
+theorem cDm_mainVals (d : DmData) (h : d.main.length = 32) : (cDm d).mainVals = d.main := by
+  obtain ⟨c, a, cu, sr, main, c29, c40⟩ := d
+  simp only at h
+  match main, h with
+  | [_, _, _, _, _, _, _, _, _, _, _, _, _, _, _, _, _, _, _, _, _, _, _, _, _, _, _, _, _, _, _, _], _ =>
+    rfl
 
 /-! ## the DM levels -/
 
